@@ -274,10 +274,10 @@ def run(ctx):
                                       'suspend_processing_unit_direct completed while a submitter that had selected this worker (running, under '
                                       'select_active_pu) had not yet enqueued its task: the enqueue is not covered by the PU lock (%s %s): %s'
                                       % (cfgs, pol, o), rep))
-                if f[2] == '3' and kvs.get('reached') == '1' and kvs.get('done_at_return') != '1':
+                if f[2] == '3' and kvs.get('reached') == '1' and kvs.get('done_without_resume') != '1':
                     r.hits.append(Hit('monitor', 'C19:slept_over_queued_task',
-                                      'a task enqueued on a running worker under the PU lock before the suspend was not run by that worker before it '
-                                      'went to sleep (%s %s): %s' % (cfgs, pol, o), rep))
+                                      'a task enqueued on a running worker under the PU lock before the suspend did not run (on that worker before it slept, or '
+                                      'stolen) without a resume (%s %s): %s' % (cfgs, pol, o), rep))
                 if f[2] == '2' and (kvs.get('early_return') == '1' or not kvs.get('states_at_return', '5').endswith('5')
                                      or kvs.get('ran_after_resume') != '1'):
                     r.hits.append(Hit('monitor', 'C19:resume_left_worker_sleeping',
